@@ -226,6 +226,8 @@ class EphysAlfCreator(object):
 
         clusters_depths = channel_positions[cluster_channels, 1]
         clusters_depths[self.model.nan_idx] = np.nan
+        # Ids without any spike have no depth (also templates that never fired, without curation).
+        clusters_depths[np.bincount(spike_clusters, minlength=n_clusters)[:n_clusters] == 0] = np.nan
         assert clusters_depths.shape == (n_clusters,)
 
         if self.model.sparse_features is None:
